@@ -65,8 +65,16 @@ pub fn run(rng: &mut Rng, full: bool) -> Value {
         let mut ts = temps.clone();
         ts.push(tc * 1.05);
         let ta = Array1::from_vec(ts.clone()) * KELVIN;
-        let opts = SolverOptions::default();
-        for (ict, ct) in [None, Some(tc * rng.range(0.6, 0.8)), Some(tc * rng.range(1.0, 1.2))].into_iter().enumerate() {
+        let ct_low = Some(tc * rng.range(0.6, 0.8));
+        let ct_high = Some(tc * rng.range(1.0, 1.2));
+        // (critical_temperature option, solver_options option): the full sweep of the former with default solver options, and
+        // non-default solver options (they steer the critical-point search and the 0.9 T_c point of the fallback only)
+        let combos: Vec<(usize, Option<f64>, Option<SolverOptions>)> = vec![
+            (0, None, None), (1, ct_low, None), (2, ct_high, None),
+            (3, None, Some(SolverOptions::new().tol(1e-6))), (4, ct_low, Some(SolverOptions::new().max_iter(60).tol(1e-12))),
+        ];
+        for (ict, ct, so) in combos {
+            let opts = so.unwrap_or_default();
             for extrapolate in [false, true] {
                 // the documented fallback: ln p linear in 1/T through the critical point and the point at 0.9 T_c, in SI units
                 let max_t = ct.unwrap_or(ts.iter().cloned().fold(f64::MIN, f64::max));
@@ -95,25 +103,33 @@ pub fn run(rng: &mut Rng, full: bool) -> Value {
                 }).collect();
                 let dummy = Array1::from_elem(ts.len(), 1.0) * PASCAL;
                 let ctq = ct.map(|t| t * KELVIN);
-                let ds: Arc<dyn DataSet<PcSaft>> = Arc::new(VaporPressure::new(dummy, ta.clone(), extrapolate, ctq, None));
-                let inputs = json!({"T": ts, "Tc_model": tc, "critical_temperature_option": ct, "extrapolate": extrapolate, "component": format!("{:?}", c)});
+                let ds: Arc<dyn DataSet<PcSaft>> = Arc::new(VaporPressure::new(dummy, ta.clone(), extrapolate, ctq, so));
+                let inputs = json!({"T": ts, "Tc_model": tc, "critical_temperature_option": ct, "solver_options": format!("{:?}", so.map(|o| (o.max_iter, o.tol))), "extrapolate": extrapolate, "component": format!("{:?}", c)});
                 let ta2 = ta.clone();
                 let mut r = record(&format!("VaporPressure(extrapolate={extrapolate}, critical_temperature option {ict})"), &eos, ds, direct.clone(),
-                    &move |p: &[f64]| Some(Arc::new(VaporPressure::new(Array1::from_vec(p.to_vec()) * PASCAL, ta2.clone(), extrapolate, ctq, None)) as Arc<dyn DataSet<PcSaft>>), inputs);
+                    &move |p: &[f64]| Some(Arc::new(VaporPressure::new(Array1::from_vec(p.to_vec()) * PASCAL, ta2.clone(), extrapolate, ctq, so)) as Arc<dyn DataSet<PcSaft>>), inputs);
                 r["extrapolated_idx"] = json!(extrapolated_idx);
                 out.push(r);
                 if !extrapolate {
                     // the prediction above T_c is NaN: model-generated targets on the sub-critical part, same options
                     let tsub = tarr.clone();
-                    let sub: Arc<dyn DataSet<PcSaft>> = Arc::new(VaporPressure::new(Array1::from_elem(temps.len(), 1.0) * PASCAL, tarr.clone(), false, ctq, None));
+                    let sub: Arc<dyn DataSet<PcSaft>> = Arc::new(VaporPressure::new(Array1::from_elem(temps.len(), 1.0) * PASCAL, tarr.clone(), false, ctq, so));
                     out.push(record(&format!("VaporPressure(extrapolate=false, subcritical, critical_temperature option {ict})"), &eos, sub, direct[..temps.len()].to_vec(),
-                        &move |p: &[f64]| Some(Arc::new(VaporPressure::new(Array1::from_vec(p.to_vec()) * PASCAL, tsub.clone(), false, ctq, None)) as Arc<dyn DataSet<PcSaft>>),
+                        &move |p: &[f64]| Some(Arc::new(VaporPressure::new(Array1::from_vec(p.to_vec()) * PASCAL, tsub.clone(), false, ctq, so)) as Arc<dyn DataSet<PcSaft>>),
                         json!({"T": temps, "Tc_model": tc, "critical_temperature_option": ct, "extrapolate": false, "component": format!("{:?}", c)})));
                 }
             }
         }
-        // ---- liquid density at (T, p), p above the vapour pressure
-        let ps: Vec<f64> = temps.iter().map(|&t| PhaseEquilibrium::vapor_pressure(&eos, t * KELVIN)[0].map_or(1e6, |p| p.convert_to(PASCAL)) * rng.range(1.2, 5.0) + 1e5).collect();
+        // ---- liquid density at (T, p): pressures on BOTH sides of the model's vapour pressure — compressed liquid, liquid that is only
+        // metastable for the model (p slightly below p_sat: what happens to saturated-liquid data when the model overestimates
+        // p_sat), and far below p_sat where the liquid root may not exist at all (NaN)
+        let psat: Vec<f64> = temps.iter().map(|&t| PhaseEquilibrium::vapor_pressure(&eos, t * KELVIN)[0].map_or(1e6, |p| p.convert_to(PASCAL))).collect();
+        let ps: Vec<f64> = psat.iter().enumerate().map(|(i, &pv)| match i % 4 {
+            0 => pv * rng.range(0.9, 0.995),
+            1 => pv * rng.range(1.2, 5.0) + 1e5,
+            2 => pv * rng.range(1.001, 1.1),
+            _ => pv * rng.log_range(0.05, 0.9),
+        }).collect();
         let parr = Array1::from_vec(ps.clone()) * PASCAL;
         let direct: Vec<f64> = temps.iter().zip(&ps).map(|(&t, &p)| {
             State::new_npt(&eos, t * KELVIN, p * PASCAL, &moles, DensityInitialization::Liquid)
@@ -123,20 +139,35 @@ pub fn run(rng: &mut Rng, full: bool) -> Value {
         let (ta, pa) = (tarr.clone(), parr.clone());
         out.push(record("LiquidDensity", &eos, Arc::new(LiquidDensity::new(Array1::from_elem(np, 1.0) * unit_rho, tarr.clone(), parr.clone())), direct,
             &move |p: &[f64]| Some(Arc::new(LiquidDensity::new(Array1::from_vec(p.to_vec()) * unit_rho, ta.clone(), pa.clone())) as Arc<dyn DataSet<PcSaft>>),
-            json!({"T": temps, "p": ps, "component": format!("{:?}", c)})));
-        let direct: Vec<f64> = temps.iter().map(|&t| {
-            PhaseEquilibrium::pure(&eos, t * KELVIN, None, SolverOptions::default())
-                .map_or(f64::NAN, |v| v.liquid().density.convert_to(MOL / METER.powi::<P3>()) * c.mw * 1e-3)
-        }).collect();
-        let ta = tarr.clone();
-        out.push(record("EquilibriumLiquidDensity", &eos, Arc::new(EquilibriumLiquidDensity::new(Array1::from_elem(np, 1.0) * unit_rho, tarr.clone(), None)), direct,
-            &move |p: &[f64]| Some(Arc::new(EquilibriumLiquidDensity::new(Array1::from_vec(p.to_vec()) * unit_rho, ta.clone(), None)) as Arc<dyn DataSet<PcSaft>>),
-            json!({"T": temps, "component": format!("{:?}", c)})));
+            json!({"T": temps, "p": ps, "p_sat_model": psat, "component": format!("{:?}", c)})));
+        // ---- equilibrium liquid density under every kind of `vle_options`: None, iteration limits that are too small (the point
+        // must be NaN exactly when PhaseEquilibrium::pure with THESE options fails), a tighter and a looser tolerance
+        let kmax = 2 + rng.below(3);
+        let vle_opts: Vec<(String, Option<SolverOptions>)> = vec![
+            ("None".into(), None),
+            ("max_iter=1".into(), Some(SolverOptions::new().max_iter(1))),
+            (format!("max_iter={kmax}"), Some(SolverOptions::new().max_iter(kmax))),
+            ("tol=1e-13".into(), Some(SolverOptions::new().tol(1e-13))),
+            ("tol=1e-4".into(), Some(SolverOptions::new().tol(1e-4))),
+        ];
+        for (oname, vo) in vle_opts {
+            let direct: Vec<f64> = temps.iter().map(|&t| {
+                PhaseEquilibrium::pure(&eos, t * KELVIN, None, vo.unwrap_or_default())
+                    .map_or(f64::NAN, |v| v.liquid().density.convert_to(MOL / METER.powi::<P3>()) * c.mw * 1e-3)
+            }).collect();
+            let ta = tarr.clone();
+            out.push(record(&format!("EquilibriumLiquidDensity(vle_options {oname})"), &eos, Arc::new(EquilibriumLiquidDensity::new(Array1::from_elem(np, 1.0) * unit_rho, tarr.clone(), vo)), direct,
+                &move |p: &[f64]| Some(Arc::new(EquilibriumLiquidDensity::new(Array1::from_vec(p.to_vec()) * unit_rho, ta.clone(), vo)) as Arc<dyn DataSet<PcSaft>>),
+                json!({"T": temps, "vle_options": oname, "component": format!("{:?}", c)})));
+        }
         // ---- transport data sets (liquid and vapour phases), targets in mPa s, W/m/K, cm^2/s
+        // stable liquid / stable vapour / liquid slightly below p_sat / vapour slightly above p_sat (the given phase is metastable)
         let phases: Vec<Phase> = (0..np).map(|i| if i % 2 == 0 { Phase::Liquid } else { Phase::Vapor }).collect();
-        let pt: Vec<f64> = temps.iter().zip(&phases).map(|(&t, ph)| {
-            let pv = PhaseEquilibrium::vapor_pressure(&eos, t * KELVIN)[0].map_or(1e6, |p| p.convert_to(PASCAL));
-            if *ph == Phase::Liquid { pv * 1.5 + 1e5 } else { pv * 0.5 }
+        let pt: Vec<f64> = psat.iter().enumerate().map(|(i, &pv)| match i % 4 {
+            0 => pv * 1.5 + 1e5,
+            1 => pv * 0.5,
+            2 => pv * rng.range(0.93, 0.995),
+            _ => pv * rng.range(1.005, 1.05),
         }).collect();
         let pta = Array1::from_vec(pt.clone()) * PASCAL;
         // both forms of the `phase` option: Some(phases) and None (DensityInitialization::None = the stable phase)
